@@ -1,11 +1,18 @@
 /-
   C12 — precompiled character-map normalization applies exactly the map, everywhere.
   Property theorems only; helper lemmas live in Kitoken/Proofs/CharsMapLemmas.lean.
+  The model is the code after the F4, F14 and F16 repairs (the pre-repair variants `loadOld`,
+  `normalizeOld` stay in the model file for the witnesses).
 -/
 import Kitoken.Proofs.CharsMapLemmas
 namespace Kitoken.C12
 
 open Kitoken Kitoken.CharsMap Kitoken.Spec Kitoken.Utf8
+
+/-- Leaves in range: every unit with the leaf flag has its leaf inside the array (true of every map
+    written by SentencePiece's builder; malformed maps are covered by `prefix_sound` and totality). -/
+def LeavesInRange (m : CharsMap) : Prop :=
+  ∀ p unit, m.array[p]? = some unit → unitHasLeaf unit = true → p ^^^ unitOffset unit < m.array.size
 
 /-- Loading a map from its serialized blob preserves all of its entries: every trie unit (including
     the very last one) and the replacement table. Holds after the F4 repair. -/
@@ -23,38 +30,59 @@ theorem load_layout (data : Bytes) (m : CharsMap) (h : load data = .ok m) :
       m.array.toList = wordsLE (rest.take (le32 a b c d).toNat) ∧ m.normalized = rest.drop (le32 a b c d).toNat :=
   Kitoken.Proofs.CharsMap.load_layout data m h
 
-/-- Common-prefix search returns exactly the values of those prefixes of the chunk that are keys of
-    the map (exact-match lookup), shortest first — for every map, well-formed or not. -/
-theorem prefix_eq_keys (m : CharsMap) (key : Bytes) (h : NoNul key) :
+/- ORIGINAL STATEMENT (FALSE for malformed maps, kept for the record; counterexample `cexPrefix` in the
+   proofs file: a leaf flag whose leaf index is outside the array stops the search although a longer
+   prefix re-enters the array):
+     theorem prefix_eq_keys (m : CharsMap) (key : Bytes) (h : NoNul key) : m.prefix key = prefixValues m key -/
+
+/-- Common-prefix search returns exactly (length, value) of those prefixes of the chunk that are keys
+    of the map (exact-match lookup), shortest first. -/
+theorem prefix_eq_keys_partial (m : CharsMap) (hwf : LeavesInRange m) (key : Bytes) (h : NoNul key) :
     m.prefix key = prefixValues m key :=
-  Kitoken.Proofs.CharsMap.prefix_eq_keys m key h
+  Kitoken.Proofs.CharsMap.prefix_eq_keys m hwf key h
 
-/-- A chunk none of whose prefixes is a key of the map is left alone. -/
-theorem transform_none_of_no_key (m : CharsMap) (chunk : Bytes) (h : NoNul chunk)
-    (hk : ∀ n, 1 ≤ n → n ≤ chunk.length → lookupExact m (chunk.take n) = none) :
-    m.transform chunk = none :=
-  Kitoken.Proofs.CharsMap.transform_none_of_no_key m chunk h hk
+/-- For every map, well-formed or not, and every chunk: common-prefix search returns an initial
+    segment of the true list of prefix keys — it may stop early but never invents or reorders. -/
+theorem prefix_sound (m : CharsMap) (key : Bytes) : m.prefix key <+: prefixValues m key :=
+  Kitoken.Proofs.CharsMap.prefix_sound m key
 
-/-- Characters the map does not mention are unchanged, everywhere: if no prefix of any grapheme and
-    no character of the text is a key of the map, normalization returns the text itself — for every
-    text (valid UTF-8) and every segmentation into graphemes that tiles it on character boundaries. -/
-theorem normalize_untouched (m : CharsMap) (limit : Nat) (gs : List (List Char))
-    (hg : ∀ g ∈ gs, g ≠ [] ∧ NoNul (encodeChars g))
-    (hk : ∀ g ∈ gs, ∀ n, 1 ≤ n → n ≤ (encodeChars g).length → lookupExact m ((encodeChars g).take n) = none) :
+/-- The lookup at one position is the specification's key occurrence: the longest key that is a
+    prefix of what is left, provided it ends on a character boundary and its replacement lies inside
+    the table. -/
+theorem transform_eq_occurrence (m : CharsMap) (hwf : LeavesInRange m) (chunk : Bytes) (h : NoNul chunk) :
+    m.transform chunk = keyOccurrence m chunk :=
+  Kitoken.Proofs.CharsMap.transform_eq_occurrence m hwf chunk h
+
+/-- THE PROPERTY: normalization replaces exactly the sequences the map defines (leftmost-longest
+    within each grapheme) with the map's replacement and leaves every other character unchanged —
+    for every text and every grapheme segmentation. Holds after the F16 repair. -/
+theorem normalize_eq_spec (m : CharsMap) (hwf : LeavesInRange m) (text : Bytes) (gs : List (Nat × Nat))
+    (hn : NoNul text) : m.normalize text gs = normalizeSpec m text gs :=
+  Kitoken.Proofs.CharsMap.normalize_eq_spec m hwf text gs hn
+
+/-- Characters the map does not mention are unchanged, everywhere: if no key of the map starts at any
+    character position of the text, normalization returns the text itself — for every valid UTF-8
+    text and every segmentation into graphemes on character boundaries; no hypothesis on the map. -/
+theorem normalize_untouched (m : CharsMap) (gs : List (List Char))
+    (hk : ∀ g ∈ gs, ∀ (pre suf : List Char), g = pre ++ suf → suf ≠ [] →
+      ∀ n, 1 ≤ n → n ≤ (encodeChars suf).length → lookupExact m ((encodeChars suf).take n) = none) :
     let text := encodeChars gs.flatten
     let bounds := (gs.foldl (fun (acc : List (Nat × Nat) × Nat) g =>
       (acc.1 ++ [(acc.2, acc.2 + (encodeChars g).length)], acc.2 + (encodeChars g).length)) ([], 0)).1
-    m.normalize limit text bounds = text :=
-  Kitoken.Proofs.CharsMap.normalize_untouched m limit gs hg hk
+    m.normalize text bounds = text :=
+  Kitoken.Proofs.CharsMap.normalize_untouched m gs hk
 
-/-- A single character that is a key of the map (and is a grapheme by itself) is replaced by exactly
-    the map's replacement string for it (read up to the next NUL). -/
-theorem normalize_single_key (m : CharsMap) (limit : Nat) (c : Char) (v : Nat)
-    (hl : (encodeChar c).length < limit) (hn : NoNul (encodeChar c))
-    (hv : (prefixValues m (encodeChar c)).head? = some v)
-    (hb : v ≤ scanNul m.normalized v ∧ scanNul m.normalized v ≤ m.normalized.length) :
-    m.normalize limit (encodeChar c) [(0, (encodeChar c).length)] =
-      encodeChars (chars (slice m.normalized v (scanNul m.normalized v))) :=
-  Kitoken.Proofs.CharsMap.normalize_single_key m limit c v hl hn hv hb
+/-- A key followed by characters the map does not mention: the key is replaced by the map's
+    replacement string and the following characters are kept (this is what the pre-repair code got
+    wrong: it dropped them, see `old_drops_following_characters`). -/
+theorem normalize_key_then_rest (m : CharsMap) (hwf : LeavesInRange m) (k rest : List Char) (v : Nat) (r : Bytes)
+    (hk : k ≠ []) (hnul : NoNul (encodeChars (k ++ rest)))
+    (hkey : longestKey m (encodeChars (k ++ rest)) = some ((encodeChars k).length, v))
+    (hr : replacementAt m v = some r)
+    (hrest : ∀ (pre suf : List Char), rest = pre ++ suf → suf ≠ [] →
+      ∀ n, 1 ≤ n → n ≤ (encodeChars suf).length → lookupExact m ((encodeChars suf).take n) = none) :
+    m.normalize (encodeChars (k ++ rest)) [(0, (encodeChars (k ++ rest)).length)] =
+      encodeChars (chars r) ++ encodeChars rest :=
+  Kitoken.Proofs.CharsMap.normalize_key_then_rest m hwf k rest v r hk hnul hkey hr hrest
 
 end Kitoken.C12
